@@ -304,6 +304,12 @@ fn check_master_reset(before: &Machine, after: &Machine, kind: &str) -> Option<V
     if ba.digital_input1() != bb.digital_input1() || !same_f(*ba.temp(), *bb.temp()) || !same_f(ba.analog_inputs()[0], bb.analog_inputs()[0]) || !same_f(ba.analog_inputs()[1], bb.analog_inputs()[1]) || (ba.dasr().bits() ^ bb.dasr().bits()) & 0xC0 != 0 {
         return Some((format!("C07:{}:board-inputs-changed", kind), "the board's physical inputs (DI1, TEMP, AI1/2, J1/J2) changed by a master reset".into()));
     }
+    // the level applied from outside to a UIO pin that was configured as input is a physical input too
+    for i in 0..3 {
+        if !bb.uio_dir()[i] && (ba.dasr().bits() ^ bb.dasr().bits()) & (1 << i) != 0 {
+            return Some((format!("C07:{}:board-inputs-changed", kind), format!("the level of input pin UIO{} in DA-SR changed by a master reset ({:#04x} -> {:#04x})", i + 1, bb.dasr().bits(), ba.dasr().bits())));
+        }
+    }
     None
 }
 
